@@ -41,6 +41,8 @@ class ErrAdapter:
         from ioflo.aio.tcp import clienting, serving
         from ioflo.aio.udp import udping
         from ioflo.aio.proto import stacking, packeting
+        from ioflo.aid.consoling import getConsole
+        getConsole().reinit(verbosity=0)      # the transports report every error on the console
         self.cls = cls = str(init["cls"])
         self.undo = []
         self.fake = None
@@ -185,7 +187,7 @@ class ErrAdapter:
             out.update({"txq": len(x.txes), "rxn": len(x.rxbs)})
             if not (self.fake is not None and len(self.fake.created) > 1):
                 out["wire"] = len(sock.sent)      # (a reopened client has a fresh socket: bytes are counted per socket)
-            if op not in ("connect", "handshake"):
+            if op != "connect":
                 out["cutoff"] = bool(x.cutoff)
             if self.cls in ("client", "clienttls"):
                 out["connected"] = bool(x.connected)
